@@ -42,7 +42,8 @@ class PandasMaterializer(FormulaMaterializer):
     @override
     def _is_categorical(self, values: Any) -> bool:
         if isinstance(values, (pandas.Series, pandas.Categorical)):
-            if isinstance(values.dtype, pandas.ArrowDtype):
+            arrow_dtype = getattr(pandas, "ArrowDtype", None)  # pandas >= 1.5
+            if arrow_dtype is not None and isinstance(values.dtype, arrow_dtype):
                 # e.g. text read with `dtype_backend="pyarrow"`
                 import pyarrow
 
